@@ -19,7 +19,7 @@ import (
 
 // C26: multidb routing.  One case = one history over a set of memory databases:
 //
-//   mdb <avail types, comma separated> <constructions per NEW>
+//   mdb <avail types, comma separated> <constructions per NEW> [<table-records key, raw>]
 //     ; NEW req=type:name:table:nodrop ...   build a producer (N times: Go's map order is re-randomised)
 //     ; RT req                               Producer.RouteOf
 //     ; O req                                Producer.OpenDB
@@ -145,6 +145,10 @@ func c26Run(in []string) []string {
 	if trials < 1 {
 		trials = 1
 	}
+	recordsKey := c26RecordsKey
+	if len(header) > 3 { // optional: the table-records key as a raw string
+		recordsKey = []byte(c26s(header[3]))
+	}
 	backends := map[multidb.TypeName]kvdb.IterableDBProducer{}
 	producers := map[multidb.TypeName]kvdb.FullDBProducer{}
 	for _, t := range strings.Split(header[1], ",") {
@@ -205,6 +209,14 @@ func c26Run(in []string) []string {
 				e := c26ParseEntry(et)
 				tbl[e.req] = e.route
 			}
+			if _, hasDefault := tbl[""]; !hasDefault {
+				// without a default route RouteOf's for{} loop does not terminate: construction must be refused;
+				// if it is not, say so and keep the previous producer instead of hanging
+				if _, err := multidb.NewProducer(producers, tbl, recordsKey); err == nil {
+					obs = append(obs, "new:ok:nodefault")
+					continue
+				}
+			}
 			var first *multidb.Producer
 			det, failed := "1", false
 			for i := 0; i < trials && !failed; i++ {
@@ -213,7 +225,7 @@ func c26Run(in []string) []string {
 				for k, v := range tbl {
 					t2[k] = v
 				}
-				p, err := multidb.NewProducer(producers, t2, c26RecordsKey)
+				p, err := multidb.NewProducer(producers, t2, recordsKey)
 				if err != nil {
 					failed = true
 					break
@@ -266,6 +278,9 @@ func c26Run(in []string) []string {
 				_ = db.Close()
 				db.Drop()
 				vu.Stat("drop")
+				if rt.NoDrop {
+					vu.Stat("sweep_nodrop_drop_ignored")
+				}
 			case "W":
 				k, v := []byte(c26s(o[2])), []byte(c26s(o[3]))
 				if err := db.Put(k, v); err != nil {
@@ -362,14 +377,42 @@ func c26GenTable(r *rand.Rand) []string {
 	return out
 }
 
+var c26LongReq = "x/" + strings.Repeat("seg/", 14) + strings.Repeat("y", 180)
+
 func c26Gen(r *rand.Rand, n int, tier string, emit func(...string)) {
 	for i := 0; i < n; i++ {
 		avail := "main,aux"
-		if r.Intn(8) == 0 {
+		switch r.Intn(16) {
+		case 0, 1:
 			avail = "main"
+		case 2:
+			avail = "~" // no producer at all: every open fails with "missing producer"
+			vu.Stat("sweep_no_producers")
 		}
 		in := []string{"mdb", avail, "20"}
+		// 1 case in 6: the table-records key is the ASCII string "rec", and tables r / re / rec (prefixes of it,
+		// excluded by the property's quantifier as far as colliding KEYS go) are in play: no user key collides
+		// with the records key here (keys k,t,tk,u only), so routing, conflicts and Verify must still behave
+		recMode := r.Intn(6) == 0
+		if recMode {
+			in = append(in, "rec")
+			vu.Stat("sweep_tables_prefix_of_records_key")
+		}
 		tbl := c26GenTable(r)
+		switch r.Intn(20) {
+		case 0:
+			tbl = nil // the empty routing table
+			vu.Stat("sweep_empty_routing_table")
+		case 1, 2:
+			tbl = []string{"~=main:db:~:" + vu.B(r.Intn(2) == 0)} // the default route only
+			vu.Stat("sweep_default_route_only")
+		}
+		if recMode && len(tbl) > 0 {
+			k := r.Intn(len(tbl))
+			e := c26ParseEntry(tbl[k])
+			e.route.Table = c26Pick(r, []string{"r", "re", "rec"})
+			tbl[k] = c26t(e.req) + "=" + c26t(string(e.route.Type)) + ":" + c26t(e.route.Name) + ":" + c26t(e.route.Table) + ":" + vu.B(e.route.NoDrop)
+		}
 		in = append(in, ";", "NEW")
 		in = append(in, tbl...)
 		nops := 4 + r.Intn(14)
@@ -383,6 +426,14 @@ func c26Gen(r *rand.Rand, n int, tier string, emit func(...string)) {
 			if len(opened) > 0 && r.Intn(3) == 0 {
 				req = opened[r.Intn(len(opened))]
 			}
+			if r.Intn(70) == 0 {
+				req = c26LongReq // a very long, deeply nested request
+				vu.Stat("sweep_long_nested_request")
+			}
+			if j == 0 && r.Intn(6) == 0 {
+				in = append(in, "V", ";") // Verify before any database exists
+				vu.Stat("sweep_verify_on_empty")
+			}
 			switch x := r.Intn(20); {
 			case x < 3:
 				in = append(in, "RT", c26t(req))
@@ -392,10 +443,18 @@ func c26Gen(r *rand.Rand, n int, tier string, emit func(...string)) {
 			case x < 10:
 				in = append(in, "X", c26t(req))
 			case x < 13:
-				in = append(in, "W", c26t(req), c26t(c26Pick(r, c26Keys)), c26t(c26Pick(r, []string{"v1", "v2", ""})))
+				wk := c26Pick(r, c26Keys)
+				if recMode && wk == "" {
+					wk = "k"
+				}
+				in = append(in, "W", c26t(req), c26t(wk), c26t(c26Pick(r, []string{"v1", "v2", ""})))
 				opened = append(opened, req)
 			case x < 16:
-				in = append(in, "G", c26t(req), c26t(c26Pick(r, c26Keys)))
+				gk := c26Pick(r, c26Keys)
+				if recMode && gk == "" {
+					gk = "k"
+				}
+				in = append(in, "G", c26t(req), c26t(gk))
 			case x < 18:
 				in = append(in, "V")
 			default: // restart: same table re-shuffled, an edited table, or a new one
